@@ -35,6 +35,10 @@ What had to be shown anew (each of the two developments generalises a different 
 
 Vocabulary: `Spec/NoCtlC.lean`, `Spec/F/*.lean`; helper lemmas: `Lemmas/F/Placeholders*.lean` (composition:
 `Lemmas/F/PlaceholdersXCAllF.lean`).  Core Lean only.
+
+(Worker amp: the chain now has a third parameter, `HtmlBound.amp` — does the character domain admit `&`? —; the theorems
+of this file are the instance `amp = false`; `Props/C10XCAllAmp.lean` has the end-to-end theorem for sources with
+ampersands, `C10X_partial_all_links_amp`.)
 -/
 import MdVerif.Lemmas.F.PlaceholdersXCAllF
 
@@ -52,26 +56,32 @@ open Py
     simple regions behind `](` and `![` — possibly open at the end of a string —, `BACKTICK_RE` safe; atomic texts
     `WF false 0`) and satisfies `QN wl` (no `[` before a blank with wikilinks), and the pattern table is the one of
     `InlineX.table fn wl nl` (footnote references, wikilinks, nl2br on or off), then every element of the tree that
-    `InlineX.runX` returns is again an F-`WNodeC 0` — no inline placeholder is left, foreign tokens are whole — and the
-    raw-HTML stash is untouched. -/
+    `InlineX.runX` returns is again an F-`WNodeC 0` — no inline placeholder is left, foreign tokens are whole —, provided
+    the raw-HTML stash behind the stage has at most `HtmlBound.h` entries; that stash has only grown by entries free of
+    STX/ETX (the entities of the entity pattern) and is untouched when the character domain has no ampersand
+    (`NoCtlF.HtmlOK`; third parameter `HtmlBound.amp`, with which `WNodeC` also asks that no region holds entity
+    material: `NoCtlF.AdjCA`). -/
 theorem C10X_inline_stage_links_foreign [NoCtlF.HtmlBound] {xc : InlineX.XCfg} (hesc : NoCtlF.EscOK xc.cfg.esc)
     (hrefs : MdVerif.NoCtl.RefsOK xc.cfg) (hkeys : ∀ k ∈ xc.fnKeys, NoCtl k) {fn wl nl : Bool}
     (htab : xc.table = InlineX.table fn wl nl) {tree t : Node} {html : List Str} {xs : InlineX.XSt}
     (ht : tree.Forall (NoCtlF.WNodeC 0)) (htq : tree.Forall (QN wl))
-    (h : InlineX.runX xc tree html = some (t, xs)) : t.Forall (NoCtlF.WNodeC 0) ∧ xs.st.html = html :=
-  runX_specB (hiSpecXB_tables hesc hrefs hkeys htab) ht htq h
+    (h : InlineX.runX xc tree html = some (t, xs)) (hb : xs.st.html.length ≤ NoCtlF.HtmlBound.h) :
+    t.Forall (NoCtlF.WNodeC 0) ∧ NoCtlF.HtmlOK xs.st.html html :=
+  runX_specB (hiSpecXB_tables hesc hrefs hkeys htab) ht htq h hb
 
 /-! ## 2. The preprocessor and the block stage -/
 
-/-- **`FencedBlockPreprocessor.run` keeps the regions closed.**  For a text without STX/ETX, of the domain (`DomB`: no
-    `<`, `&`), without backslash–backtick, in which every `](` is followed by a simple destination and every `![` by a
-    simple alt text that are closed on the same line (`AdjC false`), and (with wikilinks) without `[` before a blank:
+/-- **`FencedBlockPreprocessor.run` keeps the regions closed.**  For a text without STX/ETX, of the domain (`DomA`: no
+    `<`, and no `&` unless `HtmlBound.amp`), without backslash–backtick, in which every `](` is followed by a simple
+    destination and every `![` by a simple alt text that are closed on the same line (`AdjCA false`: `AdjC false`, and
+    with ampersands no `;`/`&#` inside a region), and (with wikilinks) without `[` before a blank:
     in the text handed on every STX/ETX belongs to a placeholder `STX wzxhzdk:n ETX`, `n` below the length of the
     stash, that is a block of its own (`OwnBlock`), the text has the same four properties, and no stash entry holds STX
     or ETX. -/
-theorem C10X_fenced_preprocessor_links (wl : Bool) {t t' : Str} {stash : List Str}
-    (h : Fenced.fencedRunA t = .ok t' stash) (hn : NoCtl t) (hd : DomB t) (ha : AdjC false t) (hq : Qw wl t) :
-    (NoCtlF.OwnBlock stash.length t' ∧ DomB t' ∧ AdjC false t' ∧ Qw wl t') ∧ ∀ e ∈ stash, NoCtl e :=
+theorem C10X_fenced_preprocessor_links [NoCtlF.HtmlBound] (wl : Bool) {t t' : Str} {stash : List Str}
+    (h : Fenced.fencedRunA t = .ok t' stash) (hn : NoCtl t) (hd : NoCtlF.DomA t) (ha : NoCtlF.AdjCA false t)
+    (hq : Qw wl t) :
+    (NoCtlF.OwnBlock stash.length t' ∧ NoCtlF.DomA t' ∧ NoCtlF.AdjCA false t' ∧ Qw wl t') ∧ ∀ e ∈ stash, NoCtl e :=
   XT.fencedRunA_ownC wl h hn hd ha hq
 
 /-- **The extended block stage (tables off) on a text with placeholder blocks and inline links**: if every STX/ETX of
@@ -83,10 +93,10 @@ theorem C10X_fenced_preprocessor_links (wl : Bool) {t t' : Str} {stash : List St
     and every string of the log (reference ids, urls, titles; footnote ids and bodies; abbreviations and titles) is
     free of STX/ETX, footnote bodies are again texts of the class. -/
 theorem C10X_block_stage_fenced_links [NoCtlF.HtmlBound] (wl : Bool) (xc : BlockExt.XCfg) {tab : Nat} (htab : 0 < tab)
-    {text : Str} (ho : NoCtlF.OwnBlock NoCtlF.HtmlBound.h text) (hd : DomB text) (ha : AdjC false text)
+    {text : Str} (ho : NoCtlF.OwnBlock NoCtlF.HtmlBound.h text) (hd : NoCtlF.DomA text) (ha : NoCtlF.AdjCA false text)
     (hq : Qw wl text) {root : Node} {log : Block.Refs}
     (hr : BlockExt.parseDocumentXT false xc tab text = some (root, log)) :
-    root.Forall (FnQC wl) ∧ MdVerif.NoCtl.BlkX.LogC NoCtlX.pDom (PWC wl) log :=
+    root.Forall (FnQC wl) ∧ MdVerif.NoCtl.BlkX.LogC NoCtlXF.pDomA (PWC wl) log :=
   XT.block_stage_ownC wl xc htab ho hd ha hq hr
 
 /-! ## 3. End to end: footnotes × inline links -/
